@@ -715,7 +715,64 @@ def check_programs_that_print_alike(h: Harness):
                 break
 
 
+def check_twins_and_large_pools(h: Harness):
+    """(a) TWINS: distinct individuals that carry equal genotypes (elitism next to an unchanged mutant, two initial programs that
+    happen to coincide) are two members of the population: selection without replacement returns each OBJECT at most as often as the
+    population contains it.  (b) LARGE pools (33..80 individuals, pass/fail cases that leave dozens tied): same model, same predicates
+    as the small ones"""
+    rng = h.rng
+    for trial in range(h.n(60, 600)):
+        n = rng.randint(3, 8)
+        nc = rng.randint(1, 3)
+        rep = StubRep(nc)
+        mins = [rng.random() < 0.5 for _ in range(nc)]
+        problem = sc.make_problem(mins)
+        distinct = [(j, 0, tuple(rng.randint(0, 2) for _ in range(nc))) for j in range(rng.randint(1, max(1, n - 1)))]
+        genos = [rng.choice(distinct) for _ in range(n)]
+        inds = [Individual(tuple(gt), rep) for gt in genos]       # n objects, some with EQUAL genotypes
+        for sname, step in (("LexicaseSelection", LexicaseSelection(epsilon=trial % 4 == 0)), ("TournamentSelection", TournamentSelection(rng.choice([1, 2, 3]), with_replacement=False))):
+            if sname == "TournamentSelection":
+                problem1 = SingleObjectiveProblem(lambda p: float(sum(p[2])), minimize=trial % 2 == 0)
+            else:
+                problem1 = problem
+            k = rng.randint(max(1, n - 2), n)
+            src = NativeRandomSource(rng.randrange(10**6))
+            res = run_selection(step, problem1, rep, src, inds, k)
+            h.count(f"twins:{sname}")
+            h.seen(f"twins:{sname}:{trial}:{genos}:{k}", nontrivial=len(set(genos)) < n)
+            replay = {"genotypes": [list(map(str, g_)) for g_ in genos], "target_size": k, "step": sname, "trial": trial}
+            if isinstance(res, str):
+                h.fail(f"{sname}.apply", "raises", f"{sname} over {n} individuals, {n - len(set(genos))} of them twins of another (equal genotypes), target_size={k}: {res}", replay)
+                continue
+            foreign = [w for w in res if not any(w is i for i in inds)]
+            if foreign:
+                h.fail(f"{sname}.apply", "not-a-member", f"{sname} returned an individual that is not one of the objects of the population", replay)
+                continue
+            counts = {}
+            for w in res:
+                counts[id(w)] = counts.get(id(w), 0) + 1
+            # (the statement bounds the copies for lexicase; the tournament's narrowing pool may return a member again)
+            over = [i for i in inds if counts.get(id(i), 0) > 1] if sname == "LexicaseSelection" else []
+            if over:
+                j = next(k_ for k_, i in enumerate(inds) if i is over[0])
+                h.fail(f"{sname}.apply", "more-copies-than-population",
+                       f"{sname} (without replacement) over {n} individuals with genotypes {genos} (equal genotypes = twins, distinct objects), target_size={k}: "
+                       f"the individual in slot {j} was returned {counts[id(over[0])]} times, the population contains it once", replay)
+    # (b) large pools through the lexicase model
+    for trial in range(h.n(8, 60)):
+        n = rng.choice([33, 40, 48, 64, 80])
+        nc = rng.randint(2, 4)
+        shape = list(range(n))
+        comps = {o: [rng.randint(0, 1) if c < nc - 1 else rng.randint(0, 3) for c in range(nc)] for o in shape}
+        mins = [rng.random() < 0.5 for _ in range(nc)]
+        k = rng.randint(1, 4)
+        rec = Recording(NativeRandomSource(rng.randrange(10**6)))
+        pop, res = lexicase_run(shape, comps, mins, False, k, rec)
+        emit_lexicase(h, pop, res, rec, list(rec.script), mins, False, k, "large-pool")
+
+
 def run(h: Harness):
+    check_twins_and_large_pools(h)
     check_real_trees_tiny_fitness(h)
     check_lexicase_infinite_values(h)
     check_programs_that_print_alike(h)
